@@ -2,7 +2,7 @@
 
 PROPERTIES = {
     "C15": dict(
-        modules=["determinism"],
+        modules=["determinism", "interior_point"],
         level="proof",
         claim="2-run relational contracts (independent, arbitrary set iteration orders in the two runs) on the construction of requirement "
         "dependencies and Scenario.dependencies; sorted required properties; key-order independence of the options hash; RNG frame "
